@@ -33,7 +33,7 @@ class Appended:
 LINSPACE = ("np.linspace", "numpy.linspace")
 
 
-def resolve(node, env, depth=0):
+def resolve(node, env, depth=0, lists=False):
     """follow single-assignment names and subscripts of appended lists -> (node, env)"""
     while depth < 60:
         depth += 1
@@ -48,10 +48,13 @@ def resolve(node, env, depth=0):
                 continue
             if isinstance(v, ast.Name) and v.id == node.id:
                 return node, env
+            if isinstance(v, (ast.Dict, ast.DictComp, ast.SetComp, ast.GeneratorExp, ast.Lambda)) or \
+                    (isinstance(v, ast.ListComp) and not lists):
+                return node, env      # containers are never substituted into leaves
             node = v
             continue
         if isinstance(node, ast.Subscript) and not isinstance(node.slice, (ast.Slice, ast.Tuple)):
-            base, benv = resolve(node.value, env, depth)
+            base, benv = resolve(node.value, env, depth, lists)
             if isinstance(base, ast.Name) and isinstance(benv.get(base.id), Appended):
                 ap = benv[base.id]
                 env2 = dict(benv)
@@ -210,6 +213,8 @@ def local_env(fn_node, upto=None):
             appends.setdefault(n.func.value.id, []).append(n)
     for name, calls in appends.items():
         v = env.get(name)
+        if isinstance(v, ast.List) and not v.elts:
+            env[name] = None      # a list under construction keeps its own name unless recognised below
         if len(calls) == 1 and isinstance(v, ast.List) and not v.elts:
             loop = enclosing(calls[0], pm, (ast.For, ast.While))
             if isinstance(loop, ast.For) and isinstance(loop.target, ast.Name) and isinstance(loop.iter, ast.Call) \
